@@ -414,6 +414,11 @@ pub fn backend_name(v: u8) -> &'static str {
     }
 }
 
+/// false when httparse was built without its runtime dispatcher (SIMD disabled at build time)
+pub fn has_runtime_dispatch() -> bool {
+    httparse::_verif::simd::HAS_RUNTIME
+}
+
 /// Which forced backends make sense on this CPU.
 pub fn usable_backends() -> Vec<u8> {
     let mut v = vec![];
